@@ -27,7 +27,12 @@ var insideSpecs = []fileSpec{
 	{"home.htm", 45, false},
 	{"ity", 0, true}, {"ity/page.html", 50, false}, {".env", 40, false}, {"app.js", 40, false},
 	{"sp ace.txt", 40, false}, {"dot..file", 40, false},
+	{"public%2Fa.txt", 40, false}, // a name that a second percent-decoding would turn into a path
 }
+
+// devEntry is a non-regular, non-directory entry inside the served directory (a symlink to
+// /dev/null on disk, a device-mode entry in the MapFS).
+const devEntry = "devnull"
 
 // Outside it (siblings of the served directory, including look-alikes).
 var outsideSpecs = []fileSpec{
@@ -84,7 +89,7 @@ func getDisk() *disk {
 	if err != nil {
 		panic(err)
 	}
-	d := &disk{root: root, pub: filepath.Join(root, "pub"), files: map[string]*fileState{}, dirty: true, base: time.Unix(1700000000, 0)}
+	d := &disk{root: root, pub: filepath.Join(root, "public"), files: map[string]*fileState{}, dirty: true, base: time.Unix(1700000000, 0)}
 	d.mapfs = fstest.MapFS{}
 	for i, sp := range insideSpecs {
 		d.files[sp.rel] = &fileState{spec: sp, id: i}
@@ -94,6 +99,13 @@ func getDisk() *disk {
 		} else {
 			d.mapfs[sp.rel] = &fstest.MapFile{Data: content(true, i, 0, sp.size), Mode: 0o644, ModTime: d.base.Add(time.Duration(i) * time.Second)}
 		}
+	}
+	d.mapfs[devEntry] = &fstest.MapFile{Mode: os.ModeDevice | os.ModeCharDevice | 0o666, ModTime: d.base}
+	// The process works from the root of the tree, so that flamego's default directory
+	// ("public", relative) is the served directory and the root's other entries are outside it.
+	os.MkdirAll(d.pub, 0o755)
+	if err := os.Chdir(root); err != nil {
+		panic(err)
 	}
 	theDisk = d
 	return d
@@ -116,6 +128,7 @@ func (d *disk) reset() {
 	}
 	os.RemoveAll(d.root)
 	os.MkdirAll(d.pub, 0o755)
+	os.Chdir(d.root) // the old working directory was just removed
 	for i, sp := range insideSpecs {
 		f := d.files[sp.rel]
 		p := filepath.Join(d.pub, filepath.FromSlash(sp.rel))
@@ -132,6 +145,7 @@ func (d *disk) reset() {
 		f.versions = [][]byte{c}
 		f.present = true
 	}
+	os.Symlink("/dev/null", filepath.Join(d.pub, devEntry))
 	for i, sp := range outsideSpecs {
 		p := filepath.Join(d.root, filepath.FromSlash(sp.rel))
 		os.MkdirAll(filepath.Dir(p), 0o755)
